@@ -145,7 +145,11 @@ def build(torch, G, SpyLeaf, top):
             return v
     b.script = Script()
     with gd.scripted_rng(torch, b.script):
-        g = mk(top['tree'])
+        try:
+            g = mk(top['tree'])
+        except Exception as e:
+            e._partial = b          # what was built and drawn before a constructor raised
+            raise
         if top.get('sampler'):
             g = G.SamplerGenerator(g)
     b.root = g
@@ -160,6 +164,7 @@ def run_real(torch, G, SpyLeaf, top):
     except Exception as e:
         res['ctor_error'] = type(e).__name__
         res['built'] = None
+        res['partial'] = getattr(e, '_partial', None)
         return res
     res['built'] = b
     for _ in range(top['calls']):
@@ -233,11 +238,13 @@ def ref_rows(s, k, b, tags):
         return [r if t == 0 else (r[::-1] if t == 1 else r + (sum(r),)) for r in rows]
     if op == 'transN':
         if dims_of(s['kid']) != 1:
-            tags.add('transform-default-multidim')
+            tags.add('transform-default-multidim')      # names the failure if the old TypeError returns
         return rows
     if op == 'filter':
         return [r for r in rows if keep_row(s['m'], s['salt'], r[0])]
     if op == 'resample':
+        if s['repl'] and not rows and (s['size'] if s['size'] is not None else nominal_size(s['kid'])) > 0:
+            raise Precondition('sampling with replacement from an empty draw')
         log = b.rlog[s['r']]
         if k >= len(log):
             raise Impossible('resample did not draw indices')
@@ -246,7 +253,9 @@ def ref_rows(s, k, b, tags):
             size = s['size'] if s['size'] is not None else nominal_size(s['kid'])
             idx = idx[:size]
         if n != len(rows):
-            tags.add('resample-stale-size')
+            # the resampler asked the RNG for a range that is not the number of rows of this draw (the repaired defects)
+            direct = s['kid']['op'] == 'filter' and s['kid']['upd']
+            tags.add('resample-stale-size' if direct else 'resample-stale-size-indirect')
         if any(i >= len(rows) for i in idx):
             raise Impossible(f'indices {idx} drawn for n={n} but the draw has {len(rows)} rows')
         return [rows[i] for i in idx]
@@ -360,6 +369,11 @@ def coq_case(top, res):
     and every observed .size"""
     b = res['built']
     t = f'({"Sampler" if top.get("sampler") else "Plain"} {coq_gen(top["tree"])})'
+    if b is None and res.get('partial') is not None:
+        # a constructor raised (ensemble size check, or a StaticGenerator whose first draw raises): the model,
+        # fed what was drawn until then, must not produce a value either
+        draws, masks, perm, rint = coq_tables(top, res['partial'])
+        return (f'(ores_eqb (run (table {draws} []) (table {masks} []) (table {perm} []) (table {rint} []) h_tvec h_tmulti {t} 0%nat) None)')
     if b is None:
         return f'(ores_eqb (run (fun _ _ => []) (fun _ _ => []) (fun _ _ => []) (fun _ _ => []) h_tvec h_tmulti {t} 0%nat) None)'
     draws, masks, perm, rint = coq_tables(top, b)
@@ -494,7 +508,12 @@ class TreeGen:
                     'upd': r.random() < 0.8, 'salt': r.randint(0, 4)}
         if op == 'resample':
             repl = r.random() < 0.35
-            if r.random() < 0.5:
+            if not exact and r.random() < 0.4:
+                # a child whose number of rows differs from its .size (a filter, or anything above one):
+                # the resampler asks the RNG for the rows actually returned
+                kid = self.gen(depth - 1, d, n, False)
+                size = r.choice([None, max(1, n // 2)])
+            elif r.random() < 0.5:
                 kid = self.gen(depth - 1, d, n, True)
                 size = None
             else:
